@@ -322,7 +322,7 @@ fn gen_statements(fields: &Fields, encoding: Encoding) -> syn::Result<proc_macro
             let tag  = decode_tag(&field.attrs);
             let name = &field.ident;
 
-            quote! {{
+            let decode = quote! {
                 #value_start
                 #tag
                 match #decode_fn(__d777, __ctx777) {
@@ -330,7 +330,35 @@ fn gen_statements(fields: &Fields, encoding: Encoding) -> syn::Result<proc_macro
                     #unknown_var_err
                     Err(e) => return Err(e)
                 }
-            }}
+            };
+
+            // A tagged field which may be absent must also accept a plain
+            // null, e.g. one written by older software to fill the index gap.
+            let has_nil =
+                if field.attrs.tag().is_none() {
+                    None
+                } else if let Some(p) = field.attrs.codec().and_then(CustomCodec::to_nil_path) {
+                    Some(quote!(#p().is_some()))
+                } else if is_option(&field.typ, |_| true) {
+                    Some(quote!(true))
+                } else if field.attrs.codec().is_some() {
+                    None
+                } else {
+                    let ty = &field.typ;
+                    Some(quote!(<#ty as minicbor::Decode::<Ctx>>::nil().is_some()))
+                };
+
+            if let Some(has_nil) = has_nil {
+                quote! {{
+                    if minicbor::data::Type::Null == __d777.datatype()? && #has_nil {
+                        __d777.skip()?
+                    } else {
+                        #decode
+                    }
+                }}
+            } else {
+                quote!({ #decode })
+            }
     })
     .collect::<Vec<_>>();
 
